@@ -61,7 +61,9 @@ type proc struct {
 
 func spawn(id, tier string, seed int64) (*proc, error) {
 	cmd := exec.Command(os.Args[0], "worker", id, tier, strconv.FormatInt(seed, 10))
-	cmd.Env = append(os.Environ(), "GOMAXPROCS=1", "GOTRACEBACK=single")
+	// madvdontneed=0: in this kind of VM page faults are very expensive and serialised across
+	// processes; MADV_FREE lets the runtime reuse returned pages without faulting them in again.
+	cmd.Env = append(os.Environ(), "GOMAXPROCS=1", "GOTRACEBACK=single", "GODEBUG=madvdontneed=0")
 	in, _ := cmd.StdinPipe()
 	out, _ := cmd.StdoutPipe()
 	tb := &tailBuf{}
@@ -148,6 +150,11 @@ func runRange(ck Check, id, tier string, seed int64, pp **proc, lo, hi int64, fo
 			}
 		}
 		if res != nil {
+			if res.SysMB > 1200 {
+				// recycle a worker whose memory keeps growing (caches of the code under test)
+				p.kill()
+				*pp = nil
+			}
 			return *res, extra, nil
 		}
 		// worker died
@@ -336,7 +343,11 @@ func RunCheck(o Options) int {
 				}
 				next = hi
 				mu.Unlock()
+				tr := time.Now()
 				res, extra, err := runRange(ck, o.ID, o.Tier, o.Seed, &p, lo, hi, false)
+				if el := time.Since(tr); el > 5*time.Second && os.Getenv("VERIF_DEBUG") != "" {
+					fmt.Fprintf(os.Stderr, "slow range [%d,%d): %.1fs extra=%d\n", lo, hi, el.Seconds(), len(extra))
+				}
 				mu.Lock()
 				if err != nil {
 					harnessErr = err
@@ -411,35 +422,61 @@ func RunCheck(o Options) int {
 			violations = append(violations, f)
 		}
 	}
-	// reproduce uncovered failures twice in fresh workers
+	// group the uncovered failures by (clause, site): one report per group, represented by its
+	// simplest member (fewest feature tags, then lowest unit), and reproduce it twice in fresh workers
+	groups := map[string][]Failure{}
+	var gkeys []string
+	for _, f := range violations {
+		k := f.Clause + "|" + f.Site
+		if _, ok := groups[k]; !ok {
+			gkeys = append(gkeys, k)
+		}
+		groups[k] = append(groups[k], f)
+	}
+	sort.Strings(gkeys)
+	groupCount := map[string]int64{}
+	groupSigs := map[string]int{}
 	var confirmed []Failure
 	var flaky []Failure
-	for i, f := range violations {
-		if i >= 12 {
-			confirmed = append(confirmed, f) // beyond the reproduction budget: reported as is
-			continue
-		}
-		ok := true
-		for rep := 0; rep < 2 && ok; rep++ {
-			var p *proc
-			res, extra, err := runRange(ck, o.ID, o.Tier, o.Seed, &p, f.Unit, f.Unit+1, false)
-			if p != nil {
-				p.kill()
+	for _, k := range gkeys {
+		g := groups[k]
+		sort.SliceStable(g, func(i, j int) bool {
+			if len(g[i].Features) != len(g[j].Features) {
+				return len(g[i].Features) < len(g[j].Features)
 			}
-			found := false
-			if err == nil {
-				for _, g := range append(res.Fails, extra...) {
-					if g.Sig() == f.Sig() {
-						found = true
+			return g[i].Unit < g[j].Unit
+		})
+		for _, f := range g {
+			groupCount[k] += a.FailCounts[f.Sig()]
+		}
+		groupSigs[k] = len(g)
+		// try up to 3 members until one reproduces
+		reproduced := false
+		for i := 0; i < len(g) && i < 3 && !reproduced; i++ {
+			f := g[i]
+			ok := true
+			for rep := 0; rep < 2 && ok; rep++ {
+				var p *proc
+				res, extra, err := runRange(ck, o.ID, o.Tier, o.Seed, &p, f.Unit, f.Unit+1, false)
+				if p != nil {
+					p.kill()
+				}
+				found := false
+				if err == nil {
+					for _, h := range append(res.Fails, extra...) {
+						if h.Sig() == f.Sig() {
+							found = true
+						}
 					}
 				}
+				ok = found
 			}
-			ok = found
-		}
-		if ok {
-			confirmed = append(confirmed, f)
-		} else {
-			flaky = append(flaky, f)
+			if ok {
+				confirmed = append(confirmed, f)
+				reproduced = true
+			} else {
+				flaky = append(flaky, f)
+			}
 		}
 	}
 
@@ -459,13 +496,13 @@ func RunCheck(o Options) int {
 	os.MkdirAll(filepath.Join(o.Root, "replays"), 0o755)
 	for _, f := range confirmed {
 		rp := map[string]any{"property": o.ID, "tier": o.Tier, "seed": o.Seed, "unit": f.Unit, "case": f.Case, "clause": f.Clause,
-			"site": f.Site, "features": f.Features, "detail": f.Detail, "count": a.FailCounts[f.Sig()]}
+			"site": f.Site, "features": f.Features, "detail": f.Detail, "count": groupCount[f.Clause+"|"+f.Site], "signatures": groupSigs[f.Clause+"|"+f.Site]}
 		b, _ := json.MarshalIndent(rp, "", " ")
-		h := sha1.Sum([]byte(f.Sig() + f.Case))
+		h := sha1.Sum([]byte(f.Clause + "|" + f.Site))
 		path := filepath.Join(o.Root, "replays", fmt.Sprintf("%s-%x.json", o.ID, h[:5]))
 		os.WriteFile(path, b, 0o644)
 		fmt.Printf("VIOLATION property=%s replay=%s\n", o.ID, path)
-		fmt.Printf("  clause=%s site=%s features=%s cases=%d\n  case: %s\n  detail: %s\n", f.Clause, f.Site, strings.Join(f.Features, ","), a.FailCounts[f.Sig()], trunc(f.Case, 400), trunc(f.Detail, 400))
+		fmt.Printf("  clause=%s site=%s cases=%d feature-signatures=%d simplest: features=%s\n  case: %s\n  detail: %s\n", f.Clause, f.Site, groupCount[f.Clause+"|"+f.Site], groupSigs[f.Clause+"|"+f.Site], strings.Join(f.Features, ","), trunc(f.Case, 400), trunc(f.Detail, 400))
 	}
 
 	// evidence
